@@ -24,6 +24,9 @@ THEOREMS = [
     "Baize.Multipart.rendered_part_ok",
     "Baize.Multipart.itemOf_rendered",
     "Baize.Multipart.headerEvent_rendered",
+    "Baize.Multipart.rendered_part_ok_utf8",
+    "Baize.Multipart.rendered_form_exact",
+    "Baize.Multipart.decodeUtf8_encodeUtf8",
 ]
 MANIFEST = {
     "technique": "Lean 4 proof (invariant over all chunk partitions) + differential correspondence of the Lean "
@@ -54,14 +57,11 @@ TRUSTED = [
     "utf-8 / latin-1 codecs agree with decodeUtf8 / identity; SpooledTemporaryFile returns what was written",
 ]
 ASSUMPTIONS = [
-    "parameter and header names are ASCII where the code lower-cases them (str.lower on other text is not modelled)",
+    "parameter and header names are ASCII/Latin-1 where the code lower-cases them (str.lower on other scripts is "
+    "not modelled; the encoder-side theorems use the ASCII names Content-Disposition / name / filename)",
     "charset is utf-8, latin-1 or an unknown name (other codecs are not modelled)",
 ]
-PARTIAL = ("the header layer (rendered_part_ok: an encoder's Content-Disposition line with any name/filename free of "
-           "quote, backslash and line break, plus further header lines, denotes exactly that name, filename and "
-           "header list) is proved at byte level for the latin-1 charset; for utf-8 the decoded text of each header "
-           "line enters headerEvent_rendered as a hypothesis (codec as parameter; utf-8 decoding is tied by the "
-           "correspondence only)")
+PARTIAL = None
 
 
 def _expect(line):
